@@ -32,3 +32,11 @@ Lemma register_branches_ok :
   register_public_passes = "hasSecretBeenSentByCurrentDevice" /\
   register_chain_key_callers = ["getOwnDeviceChainKeyForGroup: true"; "RegisterChainKey: hasSecretBeenSentByCurrentDevice"].
 Proof. repeat split; reflexivity. Qed.
+
+(* the receive path: OpenEnvelopePayload holds the (exclusive) message mutex from its first to its last statement -
+   key look-up, opening and the bookkeeping that moves the window are ONE step with respect to every other delivery,
+   which is what lets C02 treat concurrent deliveries as a history (Model.C02_Ratchet.rstep is atomic) *)
+Lemma open_is_one_critical_section :
+  skel_open = ["lock s.messageMutex"; "defer unlock s.messageMutex"; "call openPayload"; "call postDecryptActions"] /\
+  open_critical = "whole".
+Proof. split; reflexivity. Qed.
